@@ -296,7 +296,7 @@ class error_997_visitor(error_visitor.error_visitor):
         #    '%i' % err_gs.st_count_recv, \
         #    '%i' % (err_gs.st_count_recv - err_gs.count_failed_st())]
         err_codes = self.__get_gs_errors(err_gs)
-        for err_cde in err_codes:
+        for err_cde in err_codes[:5]:  # AK905 to AK909
             seg_data.append('%s' % err_cde)
             #seg.append('%s' % err_cde)
         self._write(seg_data)
